@@ -180,4 +180,69 @@ Proof.
   apply failure_shapes; [exact W|exact (TI i t E)|exact (T2 i t E)].
 Qed.
 
+(* ---- the caller's mapping.  t_map0 is the length of the mapping the process
+   held when it called newCounter (other goroutines of the process may hold
+   pointers into it); t_map is the mapping the call itself works on after a
+   re-map or an extension.  No step inside a call touches t_map0: it is only
+   replaced when the call returns a cell (and then by the call's mapping, for
+   the caller to publish, invalidate the pointers and close the old one). *)
+Lemma map0_dispatch : forall ops t, t_map0 (dispatch ops t) = t_map0 t.
+Proof.
+  induction ops as [|o ops IH]; intro t; [reflexivity|]. destruct o as [nm|k]; cbn [FileConc.dispatch].
+  - destruct (nlen nm =? 0); [rewrite IH; reflexivity|]. destruct (c_maxNameLen <? nlen nm); [rewrite IH|]; reflexivity.
+  - destruct (t_cell t =? 0); [apply IH|reflexivity].
+Qed.
+
+Lemma reslen_push : forall r t, length (t_res (push_res r t)) = S (length (t_res t)).
+Proof. intros. unfold push_res. cbn [t_res set_res]. rewrite app_length. cbn. lia. Qed.
+
+Lemma reslen_dispatch : forall ops t, (length (t_res t) <= length (t_res (dispatch ops t)))%nat.
+Proof.
+  induction ops as [|o ops IH]; intro t; [cbn; lia|]. destruct o as [nm|k]; cbn [FileConc.dispatch].
+  - destruct (nlen nm =? 0).
+    + specialize (IH (push_res (RFail FEmpty) (set_cell 0 t))). rewrite reslen_push in IH. cbn [t_res set_cell] in IH. lia.
+    + destruct (c_maxNameLen <? nlen nm); [|cbn; lia].
+      specialize (IH (push_res (RFail FTooLong) (set_cell 0 t))). rewrite reslen_push in IH. cbn [t_res set_cell] in IH. lia.
+  - destruct (t_cell t =? 0); [apply IH|cbn; lia].
+Qed.
+
+Definition kept (t t' : thread) : Prop :=
+  length (t_res t') = length (t_res t) -> t_map0 t' = t_map0 t.
+
+Lemma kept_same : forall t t', t_map0 t' = t_map0 t -> kept t t'.
+Proof. intros t t' E _. exact E. Qed.
+
+Lemma kept_ret : forall t t1 ops r, t_res t1 = t_res t -> kept t (dispatch ops (push_res r t1)).
+Proof.
+  intros t t1 ops r E Len. exfalso.
+  pose proof (reslen_dispatch ops (push_res r t1)) as X. rewrite reslen_push, E in X. lia.
+Qed.
+
+Lemma kept_look_fail : forall t t1, t_res t1 = t_res t -> t_map0 t1 = t_map0 t -> kept t (look_fail t1).
+Proof.
+  intros t t1 E M. unfold FileConc.look_fail. destruct (10 <=? t_tries t1).
+  - unfold FileConc.ret_fail. apply kept_ret. exact E.
+  - apply kept_same. exact M.
+Qed.
+
+Theorem caller_mapping_kept : forall me f t, kept t (snd (step_thread me f t)).
+Proof.
+  intros me f t. unfold FileConc.step_thread.
+  destruct (t_pc t); cbn [fst snd];
+    repeat match goal with
+           | |- context [let '(_, _) := ?p in _] => destruct p
+           | |- kept _ (snd (if ?c then _ else _)) => destruct c; cbn [fst snd]
+           end;
+    unfold FileConc.look_at, FileConc.dwalk;
+    repeat match goal with
+           | |- kept _ (if ?c then _ else _) => destruct c
+           end;
+    try (apply kept_same; reflexivity);
+    try (apply kept_look_fail; reflexivity);
+    try (unfold FileConc.ret_fail; apply kept_ret; reflexivity);
+    try (unfold FileConc.ret_cell; apply kept_ret; reflexivity).
+  (* ACas success: dispatch of the next operation *)
+  apply kept_same. rewrite map0_dispatch. reflexivity.
+Qed.
+
 End Shapes.
